@@ -149,3 +149,33 @@ Section SkelLW12.
 End SkelLW12.
 Print Assumptions C12_code_cluster_statistics.
 Print Assumptions C12_code_cluster_statistics_empty.
+
+(* ---- the OPTIMISE PHASE END TO END for the code AS TRANSLATED (Proofs/InterpOptimise.v): four control skeletons LINKED -
+   optimize_markov_random_fields, _setup_optimization_task, _retrieve_optimization_results, _update_cluster_covariances; each inner
+   function is answered by RUNNING its own generated skeleton - over abstract covariances / matrices and an arbitrary solver.  A task
+   handle answers `get()` with the solver's answer to the covariance the task was created with, by the identity of the handle and
+   whatever the history (= whatever order the pool finishes its tasks in); objects obtained by shallow_copy are marked fresh and every
+   store into an object that is not fresh raises.  For every number of clusters: the phase returns a FRESH state in which every
+   cluster, in order, carries the solver's answer to ITS OWN covariance (and the inverse / log-determinant of that very matrix), its
+   covariance unchanged - and since the run returns, the code never stored into the state or the clusters it was given. ---- *)
+From Ticc Require Import Gen.G_gl_optimize Proofs.InterpOptimise.
+Theorem C12_code_optimise_phase_end_to_end : forall (C Mx L : Type) (solve : C -> Mx) (post inv : Mx -> Mx) (logdet : Mx -> L)
+    (cs : list (cluster_data C Mx L)) (W N : nat) (data pool : val C Mx L),
+  exists log' : list (PySkel.event (val C Mx L)),
+    g_optimize_markov_random_fields (val C Mx L) (VInt C Mx L) (InterpOptimise.as_int C Mx L) (InterpOptimise.getattr C Mx L)
+      (oracle_opt C Mx L solve post inv logdet) (VModel C Mx L cs (length cs) W N) data pool nil
+    = (PyRt.Ret (VFresh C Mx L (VModel C Mx L (List.map (fit C Mx L solve post inv logdet) cs) (length cs) W N)), log').
+Proof. exact optimise_phase_end_to_end. Qed.
+Print Assumptions C12_code_optimise_phase_end_to_end.
+
+Theorem C12_code_optimise_own_covariance : forall (C Mx L : Type) (solve : C -> Mx) (post inv : Mx -> Mx) (logdet : Mx -> L)
+    (cs : list (cluster_data C Mx L)) (W N : nat) (data pool : val C Mx L) (d : cluster_data C Mx L),
+  exists (cs' : list (cluster_data C Mx L)) (log' : list (PySkel.event (val C Mx L))),
+    g_optimize_markov_random_fields (val C Mx L) (VInt C Mx L) (InterpOptimise.as_int C Mx L) (InterpOptimise.getattr C Mx L)
+      (oracle_opt C Mx L solve post inv logdet) (VModel C Mx L cs (length cs) W N) data pool nil
+    = (PyRt.Ret (VFresh C Mx L (VModel C Mx L cs' (length cs) W N)), log') /\
+    (forall k : nat, (k < length cs)%nat ->
+       cov C Mx L (List.nth k cs' d) = cov C Mx L (List.nth k cs d) /\
+       mrf C Mx L (List.nth k cs' d) = Some (post (solve (cov C Mx L (List.nth k cs d))))).
+Proof. exact optimise_phase_own_covariance_nth. Qed.
+Print Assumptions C12_code_optimise_own_covariance.
